@@ -176,6 +176,7 @@ def _fit_check(c, paths):
 class Plot(Contract):
     name = PLOT
     properties = ('C17',)
+    crosscheck = 'needs a model package on disk and draws figures: not run natively by the engine cross-check'
     variants = ('cube/largest/one_figure',)
     loops = {1: EventLoop('records', _record_check, item=_record, havoc=[_figures_havoc, _havoc_cube_read]),
              2: EventLoop('fits', _fit_check, item=_fit_item, havoc=_fit_havoc, peel=True)}
